@@ -537,20 +537,27 @@ def _zlit(rng, w, scope, must=None, negate=0.4):
     return ["not", at] if rng.random() < negate else at
 
 
-def _sibling(rng, w, scope, sop, const, min_lits=0):
+def _sibling(rng, w, scope, sop, const, min_lits=0, plain=None):
     """a compound condition over the auxiliary vocabulary: (sop literal* comparison-with-const), or the same under a
-    quantifier of its own when sop is 'forall'"""
+    quantifier of its own when sop is 'forall'.  plain = 'eq': literals and one object equality, no comparison;
+    plain = 'vacuous': literals that do not mention the sibling's own quantified variable, no comparison (the library
+    compares numeric operands by identity, so only comparison-free siblings can ever be taken for one another)"""
     must = None
     head = [sop]
+    outer = list(scope)
     if sop == "forall":
         ty = rng.choice(w.all_types())
         must = "?qz"
         scope = list(scope) + [(must, ty)]
         head = [rng.choice(["and", "or"])]
     cop = rng.choice(["<=", ">=", "<", ">", "="])
-    items = [[cop, _zfl(rng, w, scope, must), const]]
+    items = [] if plain else [[cop, _zfl(rng, w, scope, must), const]]
+    if plain == "eq":
+        vs = [v for v, _ in scope]
+        x, y = rng.sample(vs, 2)
+        items.append(["=", x, y])
     for _ in range(max(min_lits, rng.choice([0, 1, 1, 1, 1, 2]))):
-        lit = _zlit(rng, w, scope, must)
+        lit = _zlit(rng, w, outer if plain == "vacuous" else scope, None if plain == "vacuous" else must)
         if lit not in items:
             items.append(lit)
     rng.shuffle(items)
@@ -592,7 +599,9 @@ def _twin_of(rng, w, node, mode, c1, c2):
         t = body_map(t, lambda b: [b[0]] + list(reversed(b[1:])))
     if mode == "flip":
         t = body_map(t, flip)
-    if mode == "qtype":
+    if mode == "eqflip":
+        t = body_map(t, lambda b: [b[0]] + [["not", x] if x[0] == "=" and not isinstance(x[1], list) else x for x in b[1:]])
+    if mode in ("qtype", "qtype-vacuous"):
         others = [x for x in w.all_types() if x != t[1][2]]
         if t[0] != "forall" or not others:
             return None
@@ -602,7 +611,7 @@ def _twin_of(rng, w, node, mode, c1, c2):
 
 TWIN_SIBLINGS = ["or", "and", "forall"]
 TWIN_CONTEXTS = ["pre-root", "pre-nested-or", "pre-nested-and", "forall-body", "when-ante", "forall-when-ante"]
-TWIN_MODES = ["far", "far-swapped", "far4", "exact", "swapped", "near", "flip", "qtype"]
+TWIN_MODES = ["far", "far-swapped", "far4", "exact", "swapped", "near", "flip", "eqflip", "qtype", "qtype-vacuous"]
 
 
 def _insert_two(rng, items, s1, s2):
@@ -633,19 +642,32 @@ def _hints(a, c1, c2, tag, node=None, types=()):
 def s_twins(rng, w, a, variant):
     """two sibling compound conditions under one parent that are the same text up to `mode`"""
     sop, ctx, mode = variant
-    if mode == "qtype" and (sop != "forall" or not w.types):
+    if mode.startswith("qtype") and (sop != "forall" or not w.types):
         return None
     ensure_aux(w)
+    if mode == "eqflip":
+        while len(a["params"]) < 2:
+            a["params"] = list(a["params"]) + [("?y%d" % len(a["params"]), rng.choice(w.all_types()))]
     c1, c2 = rng.choice(pairs_for(mode))
     scope = list(a["params"])
     qv = qty = None
     if ctx in ("forall-body", "forall-when-ante"):
         qv, qty = ("?qy" if ctx == "forall-body" else "?uy"), rng.choice(w.all_types())
         scope = scope + [(qv, qty)]
-    s1 = _sibling(rng, w, scope, sop, c1, min_lits=1 if mode == "flip" else 0)
+    plain = {"eqflip": "eq", "qtype-vacuous": "vacuous"}.get(mode)
+    s1 = _sibling(rng, w, scope, sop, c1, min_lits=1 if mode == "flip" or plain else 0, plain=plain)
     s2 = _twin_of(rng, w, s1, mode, c1, c2)
     if s2 is None:
         return None
+    empty = []
+    if mode == "qtype-vacuous":
+        # one of the two quantified types has no object and no constant: there the condition holds vacuously
+        cand = [t for t in (s1[1][2], s2[1][2]) if t != "object" and not w.is_sub([x for x in (s1[1][2], s2[1][2]) if x != t][0], t)
+                and not any(w.is_sub(ct, t) for _, ct in w.consts)
+                and not any(w.is_sub(pt, t) for _, pt in a["params"])]
+        if not cand:
+            return None
+        empty = [rng.choice(cand)]
     if rng.random() < 0.3:
         s1, s2 = s2, s1
     base = _and_body(a["pre"]) if rng.random() < 0.3 else ["and"]
@@ -664,7 +686,9 @@ def s_twins(rng, w, a, variant):
         a["pre"] = ["and"]
         res = rng.choice([["pv", qv], ["and", ["pv", qv]]])
         a["eff"] = a["eff"] + [["forall", [qv, "-", qty], ["when", [rng.choice(["and", "and", "or"]), s1, s2], res]]]
-    return _hints(a, c1, c2, "twins:%s:%s:%s" % variant, s1, [qty] + [x[1][2] for x in (s1, s2) if x[0] == "forall"])
+    h = _hints(a, c1, c2, "twins:%s:%s:%s" % variant, s1, [qty] + [x[1][2] for x in (s1, s2) if x[0] == "forall" and x[1][2] not in empty])
+    h["empty_types"] = empty
+    return h
 
 
 LEAF_KINDS = ["num-far", "num-far4", "num-exact", "num-near", "lit-dup", "lit-contra", "leaf-after-compound-lit",
@@ -991,7 +1015,7 @@ SHAPES = {}
 for _sop in TWIN_SIBLINGS:
     for _ctx in TWIN_CONTEXTS:
         for _mode in TWIN_MODES:
-            if _mode == "qtype" and _sop != "forall":
+            if _mode.startswith("qtype") and _sop != "forall":
                 continue
             SHAPES["twins:%s:%s:%s" % (_sop, _ctx, _mode)] = (s_twins, (_sop, _ctx, _mode))
 for _k in LEAF_KINDS:
